@@ -20,12 +20,12 @@ from mc.lattice import chunked
 PATHS_Q = (("a",), ("t", "a"), ("t", "b"), ("t", "u", "a"))
 PATHS_T = (("a",), ("b",), ("t", "a"), ("t", "b"), ("t", "u", "a"), ("t", "u", "v", "a"))
 DEF_VALS = (None, 1, "s", [1, 2])
-USER_OPTS = ("absent", "same", 2, 1.0, True, "other", [3])
+USER_OPTS = ("absent", "same", 2, 1.0, True, "other", [3], "same-array-other-element-type")
 DEF_VALS_Q = (None, 1, [1, 2])
-USER_OPTS_Q = ("absent", "same", 2, 1.0, "other")
+USER_OPTS_Q = ("absent", "same", 2, 1.0, "same-array-other-element-type")
 STRUCT = ("none", "t_scalar", "a_table", "u_scalar", "user_only")
 BOUNDS = {
-    "quick": {"paths": [".".join(p) for p in PATHS_Q], "default_values": "absent/1/[1,2] per path (81 docs)", "user_options": "absent/same/2/1.0/'other' per path x 5 structural variants", "styles": "style of default and user doc rotate through the 9 combinations by case index", "first_run": "every default doc in every style"},
+    "quick": {"paths": [".".join(p) for p in PATHS_Q], "default_values": "absent/1/[1,2] per path (81 docs)", "user_options": "absent/same/2/1.0/[1.0, 2.0] per path x 5 structural variants", "styles": "style of default and user doc rotate through the 9 combinations by case index", "first_run": "every default doc in every style"},
     "thorough": {"paths": [".".join(p) for p in PATHS_Q], "default_values": "absent/1/'s'/[1,2] per path (256 docs)", "user_options": "absent/same/2/1.0/true/'other'/[3] per path x 5 structural variants", "styles": "3 style combinations per pair (rotating)", "first_run": "every default doc over 6 paths (4096) in every style"},
 }
 RULE = (
@@ -148,6 +148,9 @@ def user_docs(paths, dflt, opts):
             if c == "same":
                 dv = get_path(dflt, p)
                 set_path(base, p, dv if dv is not None and not isinstance(dv, dict) else 1)
+            elif c == "same-array-other-element-type":
+                # compares equal to the default array [1, 2] in Python, but is a different TOML value
+                set_path(base, p, [1.0, 2.0])
             else:
                 set_path(base, p, c)
         for st in STRUCT:
